@@ -175,12 +175,13 @@ class ZConfigParser:
         defvalue = ''
         if len(parts) == 2:
             defvalue = parts[1]
+        if not isname(defname):
+            self.error("not a substitution legal name: " + repr(defname))
+        defvalue = self.replace(defvalue)
         if defname in self.defines:
             if self.defines[defname] != defvalue:
                 self.error("cannot redefine " + repr(defname))
-        if not isname(defname):
-            self.error("not a substitution legal name: " + repr(defname))
-        self.defines[defname] = self.replace(defvalue)
+        self.defines[defname] = defvalue
 
     def replace(self, text):
         try:
